@@ -425,8 +425,13 @@ var recObject = ev.New(prop, "adts-object-machine",
 		"frames returned earlier and the application buffer stay unchanged; non-trivial = a Decode between a SetASC and a later SetASC/Encode, or >=2 Encodes").
 	Require("set-after-decode", "encode-after-decode", "two-encodes", "repeated-set")
 
-func TestObjectMachine(t *testing.T) {
-	ev.Rapid(t, "adts-object-machine", 6000, 4000000, func(t *rapid.T) {
+// TestSideBySide: independent ADTS objects used on several goroutines at once.
+func TestSideBySide(t *testing.T) {
+	ev.Parallel(t, prop, "side-by-side", 6, 400, 120, genOCase, runObject)
+}
+
+func genOCase(t *rapid.T) OCase {
+	{
 		var c OCase
 		n := rapid.IntRange(2, 12).Draw(t, "n")
 		cfgs := make([]Frame, rapid.IntRange(1, 3).Draw(t, "ncfg")) // few configurations, so repeats happen
@@ -452,6 +457,13 @@ func TestObjectMachine(t *testing.T) {
 			}
 			c.Steps = append(c.Steps, OStep{op, f})
 		}
+		return c
+	}
+}
+
+func TestObjectMachine(t *testing.T) {
+	ev.Rapid(t, "adts-object-machine", 6000, 4000000, func(t *rapid.T) {
+		c := genOCase(t)
 		var cl []string
 		seenDecode, encodes := false, 0
 		var lastSet *Frame
@@ -494,6 +506,13 @@ func replayers() map[string]ev.Replayer {
 				return err
 			}
 			return checkASC(c)
+		},
+		"side-by-side": func(raw json.RawMessage) error {
+			var c OCase
+			if err := json.Unmarshal(raw, &c); err != nil {
+				return err
+			}
+			return runObject(c)
 		},
 		"adts-object-machine": func(raw json.RawMessage) error {
 			var c OCase
